@@ -31,6 +31,18 @@ def spec_compatible(left, right, legacy):
     return (lk == rk and lk in '$!') or (lk, rk) in (('<', '>'), ('>', '<'))
 
 
+def carried(st, fine, n, desc):
+    """how often the template atom(s) node n is a copy of carry the descriptor"""
+    have = 0
+    for fname, tk in fine.nodes[n].get('mapping', []):
+        t = next((g for nm, g in st['frags'] if nm == fname), None)
+        if t:
+            for x in t['n']:
+                if x['k'] == tk:
+                    have += x['bd'].count(desc)
+    return have
+
+
 def oracle(ctx, case, steps, ctor_err):
     if steps is None:
         return
@@ -79,21 +91,21 @@ def oracle(ctx, case, steps, ctor_err):
             if digit is not None and not any(tmpl_aro) and d.get('order') != digit and not (aro and d.get('order') == 1.5):
                 ctx.fail(suites.slim(case), f'level {st["level"]}: bond {a}-{b} has order {d.get("order")} but its '
                                             f'descriptor {bd[0]} is annotated {digit}')
-            used[(a, bd[0])] += 1
-            used[(b, bd[1])] += 1
+            # the pair is stored in the orientation in which the bond was made; merging shared atoms can
+            # turn the edge round afterwards, so the pair is read in the orientation the atoms support
+            if carried(st, fine, a, bd[0]) and carried(st, fine, b, bd[1]) or not (carried(st, fine, a, bd[1]) and carried(st, fine, b, bd[0])):
+                used[(a, bd[0])] += 1
+                used[(b, bd[1])] += 1
+            else:
+                used[(a, bd[1])] += 1
+                used[(b, bd[0])] += 1
         for pair, n in per_pair.items():
             if n > meta_edges.get(pair, 0):
                 ctx.fail(suites.slim(case), f'level {st["level"]}: {n} bonds between coarse nodes {sorted(pair)} but '
                                             f'the base-graph edge has order {meta_edges.get(pair, 0)}')
         # no descriptor used twice: per atom, bonds use at most what the template atom(s) carried
         for (n, desc), cnt in used.items():
-            have = 0
-            for fname, tk in fine.nodes[n].get('mapping', []):
-                t = next((g for nm, g in st['frags'] if nm == fname), None)
-                if t:
-                    for x in t['n']:
-                        if x['k'] == tk:
-                            have += x['bd'].count(desc)
+            have = carried(st, fine, n, desc)
             if cnt > have:
                 ctx.fail(suites.slim(case), f'level {st["level"]}: descriptor {desc} on atom {n} used for {cnt} bonds, '
                                             f'written {have} times')
